@@ -145,6 +145,7 @@ class SymDT:
     def __init__(self, y, mo, d, h=0, mi=0, s=0):
         vcx = _VCX()
         self.fields = (y, mo, d, h, mi, s)
+        self.year, self.month, self.day, self.hour, self.minute, self.second, self.microsecond = y, mo, d, h, mi, s, 0
         self.T = T_of(vcx, y, mo, d, h, mi, s)
         self.valid = sym.And(y >= 1, mo >= 1, mo <= 12, d >= 1, valid_date(vcx, y, mo, d), h >= 0, h <= 23, mi >= 0, mi <= 59, s >= 0, s <= 59)
 
